@@ -11,6 +11,12 @@ import (
 )
 
 func TestKvcStandinC0616(t *testing.T) {
+	for _, n := range ListSupportedTypes() {
+		if len(n) > 3 && n[:3] == "16." && n != "16.000" && n != "16.001" {
+			fmt.Printf("KVC-STANDIN C0616 FAIL registered type %s is not covered by this stand-in\n", n)
+			t.FailNow()
+		}
+	}
 	cases := 0
 	check := func(name string, mk func() DatapointValue, str func(DatapointValue) string, b []byte) {
 		v := mk()
